@@ -67,12 +67,31 @@ Definition obs_p : P obs :=
 Definition all_of {A} (p : P A) (b : bytes) : option A :=
   match p (map code b) with Some (x, []) => Some x | _ => None end.
 
+Definition stim_p : P stim :=
+  tag <- num ;;
+  if tag =? 0 then
+    id <- num ;; st <- num ;; path <- many hop_p ;; kw <- many pair_p ;;
+    match cstatus_of st with Some s => ret (SEv (ECirc id s path kw)) | None => fun _ => None end
+  else if tag =? 1 then
+    id <- num ;; st <- num ;; cid <- num ;; host <- num ;; port <- num ;; kw <- many pair_p ;;
+    match sstatus_of st with Some s => ret (SEv (EStream id s cid host port kw)) | None => fun _ => None end
+  else if tag =? 2 then rs <- many num ;; ret (SBuild rs)
+  else if tag =? 3 then id <- num ;; ret (SExtended id)
+  else if tag =? 4 then ret SBuildErr
+  else fun _ => None.
+
 (* consensus (relay number, nickname code), number of snapshot events, all events *)
 Definition input_p : P (list (N * N) * list event * list event) :=
   rts <- many pair_p ;; nsnap <- num ;; evs <- many event_p ;;
   ret (rts, firstn (N.to_nat nsnap) evs, skipn (N.to_nat nsnap) evs).
 
 Definition decode_input (b : bytes) := all_of input_p b.
+(* consensus, snapshot, stimuli *)
+Definition input2_p : P (list (N * N) * list event * list stim) :=
+  rts <- many pair_p ;; snap <- many event_p ;; l <- many stim_p ;; ret (rts, snap, l).
+Definition decode_input2 (b : bytes) := all_of input2_p b.
+Definition obs2_p : P (obs * extra) := o <- obs_p ;; ex <- many pair_p ;; ret (o, ex).
+Definition decode_obs2 (b : bytes) : option (list (obs * extra)) := all_of (many obs2_p) b.
 Definition decode_obs (b : bytes) : option (list obs) := all_of (many obs_p) b.
 
 (* equality of observations (model vs implementation) *)
@@ -90,3 +109,4 @@ Definition dead_eqb (a b : N * list N) : bool := (fst a =? fst b) && listN_eqb (
 Definition obs_eqb (a b : obs) : bool :=
   (o_raised a =? o_raised b) && list_eqb cobs_eqb (o_circs a) (o_circs b) &&
   list_eqb sobs_eqb (o_streams a) (o_streams b) && list_eqb dead_eqb (o_heap a) (o_heap b).
+Definition obs2_eqb (a b : obs * extra) : bool := obs_eqb (fst a) (fst b) && extra_eqb (snd a) (snd b).
